@@ -363,8 +363,8 @@ class Gen:
                     args.append(lv)
                 else:
                     e = self.expr(sc, p['t'] if p['t'] == 'T' else self.pick([p['t'], p['t'], 'I']), depth + 1)
-                    if e['k'] == 'lv':
-                        e = {'k': 'par', 'a': e}      # parenthesised: by value
+                    if e['k'] in ('lv', 'cst'):
+                        e = {'k': 'par', 'a': e}      # parenthesised: by value (a bare CONST name is [amb])
                     args.append(e)
         return args
 
@@ -890,7 +890,7 @@ class Unparser:
                 t += ' STEP ' + expr_text(s['step'])
             s['ln'] = self.emit(t, ind)
             self.block(s['body'], ind + 1)
-            self.emit('NEXT' + (' ' + s['v']['n'] if s.get('nextvar') else ''), ind)
+            s['nextln'] = self.emit('NEXT' + (' ' + s['v']['n'] if s.get('nextvar') else ''), ind)
         elif k == 'while':
             s['ln'] = self.emit('WHILE ' + expr_text(s['c']), ind)
             self.block(s['body'], ind + 1)
@@ -997,7 +997,7 @@ def strip_for_tlc(prog):
         if k == 'if':
             return {'k': 'if', 'ln': ln, 'arms': [{'c': ex(a['c']), 'body': blk(a['body']), 'ln': a.get('ln', ln)} for a in s['arms']], 'els': blk(s['els'])}
         if k == 'for':
-            return {'k': 'for', 'ln': ln, 'v': ex(s['v']), 'from': ex(s['from']), 'to': ex(s['to']), 'step': ex(s['step']), 'body': blk(s['body'])}
+            return {'k': 'for', 'ln': ln, 'nextln': s.get('nextln', ln), 'v': ex(s['v']), 'from': ex(s['from']), 'to': ex(s['to']), 'step': ex(s['step']), 'body': blk(s['body'])}
         if k == 'while':
             return {'k': 'while', 'ln': ln, 'c': ex(s['c']), 'body': blk(s['body'])}
         if k == 'do':
